@@ -147,7 +147,46 @@ def _pmap_keep(func, jobs, seed, budget_s, total=None):
     return out
 
 
+def _por_job(job):
+    pid, cfg, cap = job
+    from . import runtime
+    rep = Report()
+    cid = cfg_id(cfg)
+    old = runtime.POR
+    runtime.POR = True          # release / notify / clock reads are scheduling points too: one object per segment
+    try:
+        def on_execution(exe):
+            obs = harness.observe(exe)
+            rep.case(nontrivial=True, outcome=obs[:4])
+            rep.traces += 1
+            rep.transitions += len(exe.rec)
+            for key, what in harness.oracle(exe, cfg):
+                if key.startswith(pid) or key.startswith('HARNESS'):
+                    rep.violate(key, what + ' [all-interleavings mode]', {'config': cfg, 'mode': 'sleep-sets', 'thread ids per point': exe.choices},
+                                size=len(exe.rec))
+        exp = explore.SleepSetExplorer(_make(cfg), on_execution)
+        done = exp.run(cap=cap)
+    finally:
+        runtime.POR = old
+    rep.configs.append({'config': cfg, 'mode': 'all interleavings modulo independence (sleep sets, no preemption bound)', 'completed': done,
+                        'executions': exp.executions, 'complete_traces': exp.complete_traces, 'sleep_set_blocked': exp.blocked})
+    if not done:
+        rep.cap(f'sleep-set exploration of {cid} stopped at {cap} executions')
+    return rep
+
+
+def run_por(pid, cfgs, seed, cap=400000):
+    """Unbounded exploration (all interleavings modulo independence) of the given small configurations."""
+    total = Report()
+    for rep in _pmap_keep(_por_job, [(pid, cfg, cap) for cfg in cfgs], seed, None):
+        total.merge(rep)
+    total.extra['configurations_all_interleavings'] = len(cfgs)
+    return total
+
+
 def replay(case):
+    if case.get('mode') == 'sleep-sets':
+        return {'violates': False, 'note': 'found by the all-interleavings mode: re-run the thorough check (schedules of that mode are sequences of thread ids, not replayable by the bounded explorer)'}
     """Re-execute one recorded schedule without the explorer."""
     cfg = case['config']
     prefix = [tuple(c) for c in case['schedule']]
